@@ -10,6 +10,7 @@ mod offline;
 mod serde_dom;
 mod solver;
 mod solver_replay;
+mod report;
 
 use std::io::{BufRead, Write};
 
@@ -65,6 +66,7 @@ fn main() {
                 "offline" => offline::eval(&sx),
                 "serde" => serde_dom::eval(&sx),
                 "solver" | "faults" => solver::eval(&sx),
+                "report" | "collapse" => report::eval(&sx),
                 _ => panic!("unknown domain"),
             };
             out.emit(case, &obs);
@@ -81,6 +83,7 @@ fn main() {
             "offline" => offline::generate(&mut out, &mut rng, thorough),
             "serde" => serde_dom::generate(&mut out, &mut rng, thorough),
             "solver" | "faults" => solver::generate(&mut out, &mut rng, thorough, domain),
+            "report" | "collapse" => report::generate(&mut out, &mut rng, thorough, domain),
             _ => panic!("unknown domain"),
         }
     }
